@@ -172,15 +172,16 @@ func (fr *Frame) onMakeChan(i *ssa.MakeChan, ref Term) {
 // onAllocArray: `allocassume P(a)` of the executing function holds for every backing array it
 // allocates (ownership-style ghost facts: the array id is new, so nothing else is known about it).
 func (fr *Frame) onAllocArray(ref Term) {
-	fc := fr.contr
+	own := fr.anchorOwner()
+	fc := own.contr
 	if fc == nil {
-		fc = fr.vc.eng.contractOf(fr.fn)
+		fc = fr.vc.eng.contractOf(own.fn)
 	}
 	if fc == nil {
 		return
 	}
 	for _, c := range fc.AllocAssumes {
-		env := fr.specEnvHere().bind("a", &Val{T: ref, S: SInt, Typ: types.Typ[types.Int]})
+		env := own.specEnvAt(fr).bind("a", &Val{T: ref, S: SInt, Typ: types.Typ[types.Int]})
 		t, err := fr.evalSpecAssume(c.Expr, env)
 		if err != nil {
 			fr.vc.specError(fr, c, err)
@@ -206,6 +207,36 @@ func (fr *Frame) capturedVal(fv *ssa.FreeVar, cell *Val, st *State) *Val {
 	}
 	hn, hs := fr.U().ptrHeapT(pt.Elem())
 	return fr.mkVal(sel(fr.vc.heap(st, hn, hs), cell.T), pt.Elem())
+}
+
+func (fr *Frame) contrOrLookup() *FuncContract {
+	if fr.contr != nil {
+		return fr.contr
+	}
+	return fr.vc.eng.contractOf(fr.fn)
+}
+
+// anchorOwner: the frame whose contract's anchored clauses, ghost variables and allocation
+// assumptions apply at a program point of fr - fr itself, or, inside an auto-inlined helper, the
+// nearest enclosing frame that is not one.
+func (fr *Frame) anchorOwner() *Frame {
+	for fr.auto && fr.parent != nil {
+		fr = fr.parent
+	}
+	return fr
+}
+
+// specEnvAt: the owner's names (parameters, locals, ghost variables) over the current state of
+// the frame cur that is executing inside it.
+func (fr *Frame) specEnvAt(cur *Frame) *SpecEnv {
+	if cur == fr {
+		return fr.specEnvHere()
+	}
+	saved := fr.st
+	fr.st = cur.st
+	env := fr.specEnvHere()
+	fr.st = saved
+	return env
 }
 
 func (fr *Frame) specEnvHere() *SpecEnv {
@@ -443,8 +474,8 @@ func (fr *Frame) onAcquire(id Term, write bool, pos token.Pos) {
 	// rely conditions of the type and the monitor invariant are known about the new values.
 	// A function contract may opt out with `stablebetweensections` (an assumption that is listed
 	// in the evidence).
-	if fc := fr.vc.eng.contractOf(fr.fn); fc != nil && fc.StableBetweenSections {
-		fr.vc.globalsUsed = append(fr.vc.globalsUsed, "no interference assumed between the critical sections of "+relFuncName(fr.fn)+" (contract says `stablebetweensections`)")
+	if own := fr.anchorOwner(); own.contrOrLookup() != nil && own.contrOrLookup().StableBetweenSections {
+		fr.vc.globalsUsed = append(fr.vc.globalsUsed, "no interference assumed between the critical sections of "+relFuncName(own.fn)+" (contract says `stablebetweensections`)")
 	} else {
 		fr.havocGuardedBy(obj, n, field, id)
 	}
@@ -539,9 +570,10 @@ func (fr *Frame) onRelease(id Term, write bool, pos token.Pos) {
 // anchorAsserts emits the function contract's `assert <anchor>: P` clauses for a site.
 // kind is "send", "call", "lock" or "unlock"; what is the callee / mutex field name.
 func (fr *Frame) anchorAsserts(kind, what string, pos token.Pos, bind map[string]*Val) {
-	fc := fr.contr
+	own := fr.anchorOwner()
+	fc := own.contr
 	if fc == nil {
-		fc = fr.vc.eng.contractOf(fr.fn)
+		fc = fr.vc.eng.contractOf(own.fn)
 	}
 	if fc == nil || len(fc.Asserts) == 0 {
 		return
@@ -556,7 +588,7 @@ func (fr *Frame) anchorAsserts(kind, what string, pos token.Pos, bind map[string
 		if f[0] != kind {
 			continue
 		}
-		if len(f) == 2 && !anchorMatch(what, f[1]) && !fr.anchorIsLocalChan(kind, f[1], bind) {
+		if len(f) == 2 && !anchorMatch(what, f[1]) && !own.anchorIsLocalChan(kind, f[1], bind) {
 			continue
 		}
 		if fr.vc.anchorHit == nil {
@@ -564,7 +596,7 @@ func (fr *Frame) anchorAsserts(kind, what string, pos token.Pos, bind map[string
 		}
 		fr.vc.anchorHit[fc.Key+"|assert|"+a] = true
 		for i, c := range fc.Asserts[a] {
-			env := fr.specEnvHere()
+			env := own.specEnvAt(fr)
 			for k, v := range bind {
 				env = env.bind(k, v)
 			}
@@ -808,9 +840,10 @@ func isIdent(s string) bool {
 }
 
 func (fr *Frame) ghostAfter(kind, what string, bind map[string]*Val) {
-	fc := fr.contr
+	own := fr.anchorOwner()
+	fc := own.contr
 	if fc == nil {
-		fc = fr.vc.eng.contractOf(fr.fn)
+		fc = fr.vc.eng.contractOf(own.fn)
 	}
 	if fc == nil {
 		return
@@ -820,23 +853,23 @@ func (fr *Frame) ghostAfter(kind, what string, bind map[string]*Val) {
 		if f[0] != kind {
 			continue
 		}
-		if len(f) == 2 && !anchorMatch(what, f[1]) && !fr.anchorIsLocalChan(kind, f[1], bind) {
+		if len(f) == 2 && !anchorMatch(what, f[1]) && !own.anchorIsLocalChan(kind, f[1], bind) {
 			continue
 		}
 		if fr.vc.anchorHit == nil {
 			fr.vc.anchorHit = map[string]bool{}
 		}
 		fr.vc.anchorHit[fc.Key+"|after|"+u.Anchor] = true
-		g := fr.ghostVarDecl(u.Var)
+		g := own.ghostVarDecl(u.Var)
 		if g == nil {
 			fr.vc.specError(fr, u.Expr, fmt.Errorf("unknown ghost variable %s", u.Var))
 			continue
 		}
-		env := fr.specEnvHere()
+		env := own.specEnvAt(fr)
 		for k, v := range bind {
 			env = env.bind(k, v)
 		}
-		hn, s, gt, err := fr.ghostVarHeap(g, env)
+		hn, s, gt, err := own.ghostVarHeap(g, env)
 		if err != nil {
 			fr.vc.specError(fr, u.Expr, err)
 			continue
